@@ -132,7 +132,7 @@ def _ud(rng, it):
     if it['kind'] == 'UD' and fixture:
         pel_ok = None if pel_creator != 'X' else pel_ok
     rec = udrun.observe(pel, len(before), it['plugins'], real_beh, 'C18', expect_canon=canon, c18=True,
-                        pel_ok=pel_ok, fixture=fixture)
+                        pel_ok=pel_ok, fixture=fixture, via_cli=it['k'] % 2 == 1)
     rec['kind'] = 'ud'
     rec['what'] = beh
     return rec
